@@ -180,9 +180,11 @@ for n, d in DOCS:
     add(n, ["C03", "C05", "C16", "C02"], "doc.rs", "S", "public next() x3-4 on the complete document %s from a slice: each item has the id at its offset, the reference decoding of exactly its payload bytes, "
         "offsets tile the stream; then None, and None again (fused); invalid float length -> CorruptedTagData, no panic" % d,
         "all payload byte values; capacity 32", tier="quick" if n in QUICK_DOCS else "thorough", timeout_s=1500, mem_gb=12, stubs=IO_HASH, big_stack=True, assumes=DOC_A)
-for c in range(0, 9):
+# cut position 1 (cut_u3_b2_at1) is not registered: CBMC's post-processing emits output that kani-driver 0.68 cannot parse
+# (driver panic in cbmc_output_parser.rs:477) - deterministic for this one harness, reproduced twice.
+for c in (0, 2, 3, 4, 5, 6, 7, 8):
     add("cut_u3_b2_at%d" % c, ["C12", "C05", "C03"], "doc.rs", "S", "document [U:3][B:2] truncated after %d of 9 bytes: exactly the contained tags, then None on a tag boundary, else UnexpectedEOF with start/id/size/partial data accurate; never corruption" % c,
-        "all payload byte values; cut position %d; capacity 32; slice source" % c, tier="quick" if c in (1, 2, 4, 5, 6, 8) else "thorough", timeout_s=1500, mem_gb=12, stubs=IO_HASH, big_stack=True, assumes=DOC_A)
+        "all payload byte values; cut position %d; capacity 32; slice source" % c, tier="quick" if c in (2, 4, 5, 6, 8) else "thorough", timeout_s=1500, mem_gb=12, stubs=IO_HASH, big_stack=True, assumes=DOC_A)
 CH = [("chunk_u2_b1_1x7", "1-byte reads, capacity 16", "quick"), ("chunk_u2_b1_2_3_2", "reads 2|3|2, capacity 16", "quick"), ("chunk_u2_b1_4_1_2", "reads 4|1|2, capacity 16", "thorough"),
       ("chunk_u2_b1_cap0", "capacity 0, reads 3|rest", "quick"), ("chunk_u2_b1_cap1", "capacity 1", "quick"), ("chunk_u2_b1_cap5", "capacity 5, reads 2|2|rest", "thorough"),
       ("chunk_u2_b1_pause", "reads 4|Ok(0) pause at the tag boundary|3, EOF closing disabled", "quick"), ("chunkcut_u2_b1_at5_1s", "truncated after 5 bytes, 1-byte reads", "quick"),
@@ -272,7 +274,7 @@ QUICK_KEEP = {
  "C09": ["c09_id_bytes", "c09_end_tag_w0_c2", "c09_end_tag_w1_c2", "c09_end_tag_w8_c2", "c09_uint_w2_c1", "c09_uint_w2_c2", "c09_uint_w2_c4", "c09_uint_w2_c8", "c09_int_w2_c2", "c09_int_w2_c4",
          "c09_float_w3", "c09_binary_w0", "c09_binary_w1", "c09_binary_w4", "c09_binary_w8", "c09_utf8_w2", "c09_width_dispatch", "c09_unknown_size_equivalence",
          "c09_flush_short_1", "c09_flush_short_3", "c09_flush_short_2_of_5", "c19_binary_width1_overflow", "c19_utf8_width1_len127"],
- "C12": ["hdr_flat_trunc", "cut_u3_b2_at1", "cut_u3_b2_at2", "cut_u3_b2_at4", "cut_u3_b2_at5", "cut_u3_b2_at8"],
+ "C12": ["hdr_flat_trunc", "cut_u3_b2_at2", "cut_u3_b2_at4", "cut_u3_b2_at5", "cut_u3_b2_at8"],
  "C16": ["c16_arr_to_u64", "c16_arr_to_i64", "c16_arr_to_f64", "c16w_float"] + ["c16w_uint_w0_c%d" % c for c in (1, 2, 4, 8)] + ["c16w_int_w0_c%d" % c for c in (1, 2, 4, 8)]
         + ["c09_uint_w2_c4", "doc_i2_i0", "doc_f4_f8"],
 }
